@@ -83,6 +83,26 @@ reg(Check("C20", "exploration",
                  Part("uidcorrupt", TYPES, "^TestVerifC20UidCorrupt$", shards=(11, 11)),
                  Part("p2p", TYPES, "^TestVerifC20P2P$")]))
 
+reg(Check("C17", "model_checking",
+          "placement: all 31 non-empty subsets of a 5-name universe (names that are prefixes/suffixes of each other) x all "
+          "permutations x {all-at-once, one-by-one} x replicas {1,2,3,20} x hash {crc32, 2-bit colliding, constant} x 543 keys",
+          ["hash ties are judged for order-independence and totality only, not for which node wins"],
+          text="(being extended) exhaustive enumeration of ring constructions",
+          note="election part pending", technique="bounded-exhaustive enumeration; explicit-state search for the election",
+          engine="E4 enum", claimed=False,
+          parts=[Part("ring", "server/ringhash", "^TestVerifC17Ring$", shards=(8, 8))]))
+
+reg(Check("C12", "exploration",
+          "tokens: 36 issued tokens (3 uids x 3 levels x 4 feature sets), each with all 400 single-bit and 79800 double-bit "
+          "mutations, all truncations, extensions by 1..8 bytes, foreign/zero key, serial +-1, expired, level above root; "
+          "non-trivial = distinct mutated tokens",
+          ["HMAC-SHA256 / HMAC-MD5 / bcrypt are assumed unforgeable; expiry boundary second is not probed with the real clock"],
+          text="Bounded-exhaustive enumeration of token and key mutations against an independent signer.",
+          note="reset codes, API keys and passwords are decided by parts in package main",
+          technique="bounded-exhaustive enumeration against a reference model",
+          engine="E4 enum", claimed=False,
+          parts=[Part("token", "server/auth/token", "^TestVerifC12Token$", shards=(12, 12))]))
+
 # machinery self-tests (not a property; never in MANIFEST)
 reg(Check("SELF", "other", "machinery self tests", [], claimed=False,
           parts=[Part("memdb", "server/store", "^TestVerifMemdb", shards=(1, 1)),
